@@ -177,7 +177,9 @@ class StreamingHandler(AsyncCallbackHandler, AsyncIterator):
                         return
 
             if self.pipe_to:
-                asyncio.create_task(self.pipe_to.push_chunk(chunk))
+                # The chunks must reach the other handler in order (and before whatever
+                # the caller pushes to it afterwards), so we don't use a separate task.
+                await self.pipe_to.push_chunk(chunk)
                 if chunk is None or chunk == "":
                     self.streaming_finished_event.set()
                     self.top_k_nonempty_lines_event.set()
